@@ -79,3 +79,31 @@ fn d11_stun_two_change_requests() {
     let src_port = ((b[34] as u16) << 8) | b[35] as u16;
     assert_eq!(src_port, 3479, "reply source port {}", src_port);
 }
+
+pub fn ip6_frame(src: Ipv6Addr, dst: Ipv6Addr, nh: u8, payload: &[u8]) -> Vec<u8> {
+    let mut f = vec![0xc0,0xff,0xee,0xc0,0xff,0xee, 2,2,2,2,2,2, 0x86,0xdd];
+    let pl = payload.len() as u16;
+    let mut ip = vec![0x60,0,0,0, (pl>>8) as u8, pl as u8, nh, 64];
+    ip.extend_from_slice(&src.octets());
+    ip.extend_from_slice(&dst.octets());
+    ip.extend_from_slice(payload);
+    f.extend(ip);
+    f
+}
+#[test]
+fn d5_icmpv6_echo_foreign_destination() {
+    let mut ips = HashSet::new();
+    ips.insert(IpAddr::V6(Ipv6Addr::new(0x2001,0,0,0,0,0,0,2)));
+    let m = mk(Some(&ips));
+    let f = ip6_frame(Ipv6Addr::new(0x2001,0,0,0,0,0,0,1), Ipv6Addr::new(0x2001,0,0,0,0,0,0,0x99), 58, &[128,0,0,0, 0,1,0,1, 1,2,3,4]);
+    let r = reply(&f, &m);
+    assert!(r.is_none(), "answered an echo request sent to an address that is not ours, from {:?}", &r.unwrap().packet()[22..38]);
+    // sanity: the handled address is still answered, and ND for a handled target still works from any destination
+    let f = ip6_frame(Ipv6Addr::new(0x2001,0,0,0,0,0,0,1), Ipv6Addr::new(0x2001,0,0,0,0,0,0,2), 58, &[128,0,0,0, 0,1,0,1, 1,2,3,4]);
+    assert!(reply(&f, &m).is_some());
+    let mut ns = vec![135,0,0,0, 0,0,0,0];
+    ns.extend_from_slice(&Ipv6Addr::new(0x2001,0,0,0,0,0,0,2).octets());
+    let f = ip6_frame(Ipv6Addr::new(0x2001,0,0,0,0,0,0,1), Ipv6Addr::new(0xff02,0,0,0,0,1,0xff00,2), 58, &ns);
+    let r = reply(&f, &m).expect("NS for a handled target must be answered");
+    assert_eq!(&r.packet()[22..38], &Ipv6Addr::new(0x2001,0,0,0,0,0,0,2).octets());
+}
